@@ -241,8 +241,7 @@ def check_config_pair(case):
     from behave.configuration import Configuration
     from behave.tag_expression.builder import TagExpressionProtocol as TP
     # history: the process-wide default protocol left behind by an EARLIER Configuration of this process
-    if "_current" in TP.__dict__:
-        delattr(TP, "_current")
+    TP.use(TP.DEFAULT)      # public API only: the state of a fresh process (current() == DEFAULT)
     if leftover:
         TP.use(leftover)
     if not _CFG:
@@ -292,8 +291,7 @@ def check_config_pair(case):
                   % (cfg_text, text, SUBSETS[i], got[i], want[i])))
     for d, msg in v:
         d["leftover_protocol"] = leftover or "none"
-    if "_current" in TP.__dict__:
-        delattr(TP, "_current")
+    TP.use(TP.DEFAULT)      # public API only: the state of a fresh process (current() == DEFAULT)
     nt = ("cfg", case) if len(set(want)) > 1 else None
     return {"v": v, "nt": nt, "out": digest(want), "dg": got}
 
